@@ -80,12 +80,13 @@ func init() {
 		func(p *Prog, r *Report) { ruleInflCastFlag(p, r) },
 		ruleTableKeys,
 		func(p *Prog, r *Report) { ruleDecodeSibling(p, r, []string{"mxj.xmlToMapParser"}) },
-		ruleSeqCover, ruleCastParsers, rulePairSeqNum, ruleTableEscape,
+		ruleSeqCover, ruleCastParsers, rulePairSeqNum, ruleTableEscape, ruleTableNanInf,
 		ruleOptSetterFor([]string{"mxj.attrPrefix", "mxj.lowerCase", "mxj.snakeCaseKeys", "mxj.decodeSimpleValuesAsMap", "mxj.includeTagSeqNum",
 			"mxj.xmlEscapeCharsDecoder", "mxj.disableTrimWhiteSpace", "mxj.castToInt", "mxj.castToFloat", "mxj.castToBool", "mxj.castNanInf", "mxj.checkTagToSkip"}),
 		rulePairDerived,
 		func(p *Prog, r *Report) { ruleFoldTotal(p, r, []string{"mxj.xmlToMapParser"}) },
 		func(p *Prog, r *Report) { ruleTextNonEmpty(p, r, []string{"mxj.xmlToMapParser"}) },
+		func(p *Prog, r *Report) { ruleTextTrimSet(p, r, []string{"mxj.xmlToMapParser"}) },
 		func(p *Prog, r *Report) { ruleCastOpaque(p, r, []string{"mxj.xmlToMapParser"}) },
 		panicRules(grpMapDecode))
 
@@ -124,8 +125,9 @@ func init() {
 		func(p *Prog, r *Report) {
 			ruleOwnPrivate(p, r, []string{"mxj.MapSeq.Xml", "mxj.MapSeq.XmlIndent", "mxj.BeautifyXml"})
 		},
-		rulePairSeq, ruleSeqUnwind, ruleSeqResult, ruleSeqTypes, ruleSeqLeafKeys, ruleRootSingle, ruleRootOwnKey,
+		rulePairSeq, ruleSeqUnwind, ruleSeqResult, ruleSeqTypes, ruleSeqLeafKeys, ruleRootSingle, ruleRootOwnKey, ruleEscVerbatim,
 		func(p *Prog, r *Report) { ruleTextNonEmpty(p, r, []string{"mxj.xmlSeqToMapParser"}) },
+		func(p *Prog, r *Report) { ruleTextTrimSet(p, r, []string{"mxj.xmlSeqToMapParser"}) },
 		func(p *Prog, r *Report) { ruleRenderLossless(p, r, []string{"mxj.mapToXmlSeqIndent"}) },
 		func(p *Prog, r *Report) { ruleOrder(p, r, concat(grpSeqEncode, grpBeautify)) },
 		func(p *Prog, r *Report) { ruleDecodeSibling(p, r, []string{"mxj.xmlSeqToMapParser"}) },
@@ -155,7 +157,7 @@ func init() {
 		func(p *Prog, r *Report) {
 			ruleWrapCompose(p, r, []wrapSpec{{"mxj.Map.Copy", []string{"mxj.Map.Json", "mxj.NewMapJson"}, false}})
 		},
-		ruleWrapWriter, ruleJsonListWrap, ruleJsonListWrapAlways, ruleJsonIdentity, ruleOptWriters, ruleJsonNoMarshal,
+		ruleWrapWriter, ruleJsonListWrap, ruleJsonListWrapAlways, ruleJsonIdentity, ruleOptWriters, ruleJsonNoMarshal, ruleJsonFirstValue,
 		func(p *Prog, r *Report) {
 			ruleFwdNames(p, r, func(n string) bool { return hasPrefixAny(n, "mxj.Map.Json", "mxj.Maps.Json") })
 		},
@@ -227,7 +229,8 @@ func init() {
 			}
 			rulePresence(p, r, func(n string) bool { return in[n] }, "key search")
 		},
-		func(p *Prog, r *Report) { rulePairCount(p, r, []string{"mxj.Map.ValuesForKey"}) },
+		func(p *Prog, r *Report) { rulePairCount(p, r, []string{"mxj.Map.ValuesForKey", "mxj.Map.oldValuesForPath"}) },
+		ruleOptSetterFor([]string{"mxj.fieldSep"}),
 		func(p *Prog, r *Report) {
 			ruleWrapCompose(p, r, []wrapSpec{{"mxj.Map.ValueForKey", []string{"mxj.Map.ValuesForKey"}, true}})
 		},
@@ -248,6 +251,8 @@ func init() {
 		},
 		ruleWalkLeaf,
 		func(p *Prog, r *Report) { ruleLeafPath(p, r, "mxj.getLeafNodes") },
+		ruleLeafAttrFilter,
+		func(p *Prog, r *Report) { ruleIterFresh(p, r, []string{"mxj.parsePath"}) },
 		func(p *Prog, r *Report) { rulePairCount(p, r, []string{"mxj.Map.oldValuesForPath"}) },
 		func(p *Prog, r *Report) { rulePathVerbatim(p, r, "mxj.parsePath") },
 		func(p *Prog, r *Report) { ruleWalkNoEarlyExit(p, r, []string{"mxj.getLeafNodes", "mxj.valuesForKeyPath"}) },
@@ -351,6 +356,7 @@ func init() {
 		"Structural clauses of casting: INFL.castflag (the cast flag reaches only cast() and the recursion, so structure cannot depend on it; every cast option is read only on the flag-true path; every return of cast is the identical input string or a successful strconv.Parse* of it), TABLE.naninf (with CastNanInf off all seven spellings strconv.ParseFloat accepts for NaN/Inf are excluded before its result can be returned), cast call-site coverage (attribute, text and simple values of both decoders pass through cast with the decoder's flag), OPT.writers (cast and the decoders write no package variable: what a decode returns depends on the document and the options in force, not on earlier decodes), CAST.opaque (the decoders never test a value of the node under construction for a scalar type: what cast made of a text cannot change the keys), CAST.input (the string handed to cast is computed from the current token only, never from a value read back from the node being built, which has already been cast). Not decided: that each leaf gets exactly the value its text denotes."+levelNote,
 		[]string{"strconv.ParseFloat documentation (accepted NaN/Inf spellings)"},
 		ruleInflCastFlag, ruleTableNanInf, ruleInflCover, ruleCastParsers, ruleOptWriters, ruleSeqCover, ruleSeqCastTag,
+		ruleOptSetterFor([]string{"mxj.castToInt", "mxj.castToFloat", "mxj.castToBool", "mxj.castNanInf", "mxj.checkTagToSkip"}),
 		func(p *Prog, r *Report) { ruleCastInput(p, r, []string{"mxj.xmlToMapParser", "mxj.xmlSeqToMapParser"}) },
 		func(p *Prog, r *Report) { ruleCastOpaque(p, r, []string{"mxj.xmlToMapParser", "mxj.xmlSeqToMapParser"}) })
 
@@ -424,6 +430,10 @@ func init() {
 			ruleFwdVariadic(p, r, func(n string) bool { return hasPrefixAny(n, "j2x.", "x2j.", "x2jw.") })
 		},
 		func(p *Prog, r *Report) { ruleFwdIdentity(p, r, "j2x", "x2j") },
+		func(p *Prog, r *Report) {
+			ruleFwdPure(p, r, "x2jw.ValuesFromKeyPath", "x2jw.valuesFromKeyPath")
+			ruleFwdPure(p, r, "x2jw.ValuesAtKeyPath", "x2jw.valuesFromKeyPath")
+		},
 		ruleOptWriters,
 		func(p *Prog, r *Report) { ruleScanComplete(p, r, p.PkgFuncs("x2jw")) },
 		func(p *Prog, r *Report) { ruleResultOwnArray(p, r, []string{"x2jw.valuesFromKeyPath"}) },
